@@ -107,7 +107,7 @@ def lblock_class(*, persist=False, ainit=False, astop=False, maintask=False, ifv
         super(cls, self).__init__(*args, **kwargs)
 
     def _do(self, phase):
-        self.log.append((_now(), self.name, phase))
+        self.log.append((_now(), self.name, phase, self._output is not edzed.UNDEF))
         self.calls[phase] = self.calls.get(phase, 0) + 1
         return _act(self, self.cfg.get(phase))
 
